@@ -160,6 +160,26 @@ func checkC05(p *Program, r *Report) {
 			r.OK("R05.5", fmt.Sprintf("%d kernel functions: no append on aliased buffers", sub.PerRule["R04.6"][1]))
 		}
 	}
+	// the arrays every cell goroutine reads (inputs, parameter views) are written by none of them
+	{
+		sub := NewReport("C04", r.Tier)
+		nW := 0
+		for _, m := range models {
+			if !m.Vector || m.Run == nil || m.Closure == nil || m.KernelCall == nil {
+				continue
+			}
+			nW++
+			newWrapperCtx(p, sub, eff, m).checkNoInputParamMutation()
+		}
+		r.Rule("R05.7", "what all cells read, no cell writes: nothing reachable from a wrapper's cell goroutine (the kernel, its helpers, the data package's whole-array helpers) writes through Run's inputs or through a parameter view — those are shared by the cells whenever there are fewer input blocks or parameter sets than cells (R04.1 seen as a race)")
+		for _, f := range sub.Findings {
+			r.Fail("R05.7", f.Key, f.Pos, f.Message+" — concurrently running cells that share this block read it while it changes")
+		}
+		if len(sub.Findings) == 0 {
+			r.OK("R05.7", fmt.Sprintf("%d wrappers: cell goroutines never write the shared inputs or parameter views", nW))
+		}
+		r.Floor("R05.7", "wrappers", nW, 41)
+	}
 	sites := goSites(p)
 	// package-level state reachable from goroutine bodies
 	{
